@@ -446,6 +446,32 @@ class FA:
                 v = self.project(v, c)
             return v
         if r.op == "mem":
+            # element k of a sub-slice base[a..] / base[a..b] / base[..b] is element a + k of base
+            ptr = r.args[0]
+            if chain and chain[0].op == "pi" and ptr.op == "call" and ptr.args[0] in SLICE_INDEX and len(ptr.args[1]) == 2:
+                rg = ptr.args[1][1]
+                if rg.op == "agg" and rg.args[0].startswith("core::ops::Range"):
+                    name = rg.args[0].rsplit("::", 1)[1]
+                    lo = None
+                    if name in ("Range", "RangeFrom"):
+                        lo = rg.args[3][0]
+                    elif name in ("RangeTo", "RangeFull"):
+                        lo = set_ty(mk("const", "usize", 0), U)
+                    if lo is not None:
+                        bptr = ptr.args[1][0]
+                        bobj = self.pointee(bptr) if bptr.op == "ref" else mk("mem", bptr)
+                        k = chain[0].args[1]
+                        if is_const(lo) and const_val(lo) == 0:
+                            idx = k
+                        elif is_const(lo) and is_const(k):
+                            idx = set_ty(mk("const", "usize", const_val(lo) + const_val(k)), U)
+                        else:
+                            idx = set_ty(mk("bin", "Add", lo, k), U)
+                            CHECKED.add(idx)
+                        Q = set_ty(mk("pi", bobj, idx), ty_of(chain[0]))
+                        for c in chain[1:]:
+                            Q = set_ty(mk(c.op, Q, *c.args[1:]), ty_of(c))
+                        return self.read_obj(Q, point)
             return self.memread(P, r, chain, point)
         return mk("opaque_read", P)
 
